@@ -36,27 +36,27 @@ REDUCED14 = [c for c in PRINTABLE if c.name in (
 BOX = (-2, 1, 3, Fraction(1, 2))
 
 
-def ac_flatten(s):
-    """Flatten Sum-in-Sum and Product-in-Product (only those), recursively."""
+def ac_flatten(s, tags=("Sum", "Product")):
+    """Flatten Sum-in-Sum and Product-in-Product (only those by default), recursively."""
     if not isinstance(s, tuple) or not s or not isinstance(s[0], str):
         return s
     t = s[0]
     if t in ("int", "float", "bool", "complex", "str", "none", "type"):
         return s
-    if t in ("Sum", "Product") and len(s) == 2 and s[1][0] == "tuple":
+    if t in tags and len(s) == 2 and s[1][0] == "tuple":
         out = []
         for c in s[1][1:]:
-            c = ac_flatten(c)
+            c = ac_flatten(c, tags)
             if c[0] == t:
                 out.extend(c[1][1:])
             else:
                 out.append(c)
         return (t, ("tuple", *out))
     if t in ("map", "dict"):
-        return (t, *sorted((k, ac_flatten(v)) for k, v in s[1:]))
+        return (t, *sorted((k, ac_flatten(v, tags)) for k, v in s[1:]))
     if t == "array":
-        return (t, s[1], *[ac_flatten(c) for c in s[2:]])
-    return (t, *[ac_flatten(c) for c in s[1:]])
+        return (t, s[1], *[ac_flatten(c, tags) for c in s[2:]])
+    return (t, *[ac_flatten(c, tags) for c in s[1:]])
 
 
 def box_for(spec):
